@@ -131,6 +131,7 @@ type fn struct {
 	skipped     []string            // calls made for an effect the model does not carry
 	prefixLen   int                 // Prefix mode: how many top-level statements were translated
 	windowFirst int                 // Prefix mode with a window: index of the first translated statement
+	rangeVars   map[string]bool     // loop-body mode: the loop's own variables (an arbitrary element: opaque whatever their type)
 	preLocals   []string            // window mode: scalar locals computed before the window that it reads (parameters of the definition)
 	// fieldSet: a field of an opaque variable the function has assigned (`position.PositionHealth = h`): later reads read the assigned value
 	fieldSet map[string]string
@@ -255,6 +256,8 @@ func (t *tr) norm(e ast.Expr, depth int) string {
 		return x.Op.String() + t.norm(x.X, depth+1)
 	case *ast.BinaryExpr:
 		return t.norm(x.X, depth+1) + " " + x.Op.String() + " " + t.norm(x.Y, depth+1)
+	case *ast.KeyValueExpr:
+		return t.text(x.Key) + ": " + t.norm(x.Value, depth+1)
 	case *ast.CompositeLit:
 		var es []string
 		for _, el := range x.Elts {
@@ -275,6 +278,9 @@ func (t *tr) opaqueArg(e ast.Expr) bool {
 		if id, isId := n.(*ast.Ident); isId {
 			if v, isVar := t.f.pkg.TypesInfo.Uses[id].(*types.Var); isVar && !v.IsField() {
 				vk := kindOf(v.Type())
+				if t.f.rangeVars[id.Name] {
+					return ok // the loop's own variable: an arbitrary element
+				}
 				if _, aliased := t.f.alias[id.Name]; aliased {
 					return ok // a local that stands for an opaque expression (`tokensIn := sdk.Coins{tokenIn}`)
 				}
@@ -675,8 +681,8 @@ func (t *tr) call(b *block, c *ast.CallExpr) string {
 func (t *tr) freeCall(c *ast.CallExpr) bool {
 	obj := t.calleeObj(c)
 	key := objKey(obj)
-	if _, ok := t.all[key]; ok {
-		return false
+	if g, ok := t.all[key]; ok && !g.spec.Prefix {
+		return false // (a function listed for its guards only is a read of the outside world where it is called)
 	}
 	if _, ok := externs[key]; ok {
 		return false
@@ -1322,6 +1328,12 @@ func (t *tr) function() string {
 			for _, st := range f.decl.Body.List {
 				if rs, ok := st.(*ast.RangeStmt); ok {
 					list = rs.Body.List
+					f.rangeVars = map[string]bool{}
+					for _, e := range []ast.Expr{rs.Key, rs.Value} {
+						if id, ok := e.(*ast.Ident); ok && id.Name != "_" {
+							f.rangeVars[id.Name] = true
+						}
+					}
 					break
 				}
 			}
@@ -1405,8 +1417,12 @@ func (t *tr) function() string {
 			func() {
 				defer func() {
 					if r := recover(); r != nil {
-						if _, ok := r.(translErr); !ok {
+						te, ok := r.(translErr)
+						if !ok {
 							panic(r)
+						}
+						if os.Getenv("GO2LEAN_DEBUG") != "" {
+							fmt.Fprintf(os.Stderr, "go2lean: %s: prefix of %d statements refused: %s\n", f.spec.Lean, n, te.msg)
 						}
 					}
 				}()
